@@ -166,6 +166,10 @@ def instances(tier: str) -> list[dict]:
         for k in range(0, depth(nodes) + 1):
             out.append({"part": "construct", "tree": t, "k": k, "ncand": 9 if tier == "quick" else 12})
     out.append({"part": "construct", "tree": "D5a", "k": None, "ncand": 9})
+    # (d) end to end on a symbolic file system: level_limit scan == quotient of the unlimited scan of the same tree
+    for mp, lines in (("r", "qualified"), ("r/a", "qualified"), ("r/a", "parent-relative"), ("r/a/x", "deep"), ("r", "deep")):
+        for k in (1, 2) if tier == "quick" else (0, 1, 2, 3):
+            out.append({"part": "scan", "mp": mp, "lines": lines, "k": k, "cap": CAPS[tier]})
     ctrees = ["D5a", "D5b", "D5c", "D5p"] if tier == "quick" else ["D5a", "D5b", "D5c", "D5p", "D6a", "D6b"]
     for t in ctrees:
         nodes = TREES[t]
@@ -182,6 +186,8 @@ def label_of(i) -> str:
         return f"kernel {i['name']}"
     if i["part"] == "construct":
         return f"construct {i['tree']} k={i['k']}"
+    if i["part"] == "scan":
+        return f"scan module_path={i['mp']} lines={i['lines']} level_limit={i['k']}"
     return f"verdict {i['tree']} k={i['k']}: {RuleSpec.from_json(i['spec']).label()}"
 
 
@@ -192,6 +198,8 @@ def work(inst: dict) -> dict:
         return res
     if inst["part"] == "construct":
         return work_construct(inst)
+    if inst["part"] == "scan":
+        return work_scan(inst)
     return work_verdict(inst)
 
 
@@ -222,6 +230,78 @@ def _no_limit(nodes, cands):
     if set(g.nodes) != set(nodes) or got_imp != set(edges):
         return ("MISMATCH", f"modules {sorted(nodes)} imports {sorted(edges)}", f"modules {sorted(g.nodes)} imports {sorted(got_imp)}")
     return ("OK", len(edges))
+
+
+# --- (d) end to end ------------------------------------------------------------------------------------------
+
+
+def _scan(base: str, mp_rel: str, k):
+    import os
+
+    from pytestarch import get_evaluable_architecture
+    from vf.engine.stubs_fs import graph_view
+
+    try:
+        ev = get_evaluable_architecture(os.path.join(base, "r"), os.path.join(base, mp_rel), level_limit=k)
+    except Exception as e:  # noqa: BLE001
+        return ("ERROR", type(e).__name__, str(e)[:120])
+    return ("SCAN",) + graph_view(ev)
+
+
+def scan_judge(mp_rel: str, k: int, full, flat):
+    if full[0] != "SCAN" or flat[0] != "SCAN":
+        return ("MISMATCH", "two architectures", f"{full[:3]} / {flat[:3]}")
+    total = k + mp_rel.count("/")  # k levels below module_path, names count from the root directory
+    _, n, imp, hier = full
+    want_n = {trunc(x, total) for x in n}
+    want_i = {(trunc(u, total), trunc(v, total)) for u, v in imp if trunc(u, total) != trunc(v, total)}
+    want_h = {(x.rsplit(".", 1)[0], x) for x in want_n if "." in x}
+    _, fn, fi, fh = flat
+    if fn != want_n:
+        return ("MISMATCH", f"modules {sorted(want_n)}", f"modules {sorted(fn)}")
+    # an import from a truncated module to its own ancestor / descendant coincides with a hierarchy pair
+    dc = {(u, v) for u, v in want_i | fi if is_anc_or_self(u, v) or is_anc_or_self(v, u)}
+    if (fi - dc) != (want_i - dc):
+        return ("MISMATCH", f"imports {sorted(want_i - dc)}", f"imports {sorted(fi - dc)}")
+    if (fh | {(u, v) for u, v in dc}) != (want_h | {(u, v) for u, v in dc}) and fh - dc != want_h - dc:
+        return ("MISMATCH", f"hierarchy {sorted(want_h)}", f"hierarchy {sorted(fh)}")
+    return ("OK", len(want_n), len(want_i))
+
+
+def work_scan(inst) -> dict:
+    import os
+    import random
+    import shutil
+    import tempfile
+
+    from vf.engine.stubs_fs import symfs
+    from vf.props import c04
+
+    model = c04.make_model({"mp": inst["mp"], "lines": inst["lines"], "fixed": ({"r/ab.py": False, "r/a_b": False, "r/notes.txt": False, "r/empty": False, "r/a/__init__.py": False} if inst["lines"] == "deep" else {"r/notes.txt": False, "r/empty": False})})
+    mp, k = inst["mp"], inst["k"]
+
+    def fn():
+        with symfs(model):
+            return scan_judge(mp, k, _scan("/symfs", mp, None), _scan("/symfs", mp, k))
+
+    def make_payload(assign):
+        return {"kind": "scan", "inst": {x: inst[x] for x in ("mp", "lines", "k")}, "assign": [[list(kk), v] for kk, v in sorted(assign.items(), key=str)]}
+
+    res = check_no_mismatch(label_of(inst), fn, inst["cap"], make_payload, replay_detail, all_keys=model.all_keys(), sample={"candidate_paths": sorted(model.cands)})
+    if not res.get("over_budget"):
+        rnd = random.Random(runner.seed() * 13 + len(label_of(inst)))
+        for _ in range(2):
+            assign = {kk: rnd.randint(0, 1) for kk, _ in model.all_keys()}
+            ENGINE.prefix, ENGINE.trace, ENGINE.assign = [], [], dict(assign)
+            try:
+                sym = fn()
+            finally:
+                ENGINE.assign = {}
+            ok, text, detail = replay_detail(make_payload(assign))
+            res["replays"] = res.get("replays", 0) + 1
+            if (sym[0] == "OK") != ok:
+                res["errors"].append(f"stub divergence on {label_of(inst)}: symbolic file system -> {sym[:3]}, real directory -> {detail}")
+    return res
 
 
 def work_verdict(inst) -> dict:
@@ -280,6 +360,23 @@ def work_verdict(inst) -> dict:
 def replay_detail(payload: dict):
     if payload["kind"] == "kernel":
         return replay_kernel(payload)
+    if payload["kind"] == "scan":
+        import shutil
+        import tempfile
+
+        from vf.props import c04
+
+        i = payload["inst"]
+        model = c04.make_model({"mp": i["mp"], "lines": i["lines"], "fixed": ({"r/ab.py": False, "r/a_b": False, "r/notes.txt": False, "r/empty": False, "r/a/__init__.py": False} if i["lines"] == "deep" else {"r/notes.txt": False, "r/empty": False})})
+        assign = {tuple(kk): v for kk, v in payload["assign"]}
+        d = tempfile.mkdtemp(prefix="c09_")
+        try:
+            model.materialise(assign, d)
+            o = scan_judge(i["mp"], i["k"], _scan(d, i["mp"], None), _scan(d, i["mp"], i["k"]))
+        finally:
+            shutil.rmtree(d, ignore_errors=True)
+        ex, txt = model.concrete(assign)
+        return o[0] == "OK", f"tree {sorted(ex)} with lines {txt}, module_path={i['mp']}, level_limit={i['k']}: " + ("quotient of the unlimited scan" if o[0] == "OK" else f"expected {o[1]}, got {o[2]}"), {"outcome": [str(x)[:300] for x in o]}
     nodes = payload["nodes"]
     k = payload["k"]
     if payload["kind"] == "construct":
@@ -324,7 +421,7 @@ def run(tier: str, only: str | None = None) -> int:
         "importers are file modules / imports from a package to its own descendants carry no variable (a real scan cannot produce them unless b.py sits beside b/): DESIGN 3.4",
         "flat graph: hierarchy built by the real NetworkxGraph constructor with level_limit=k, import edges answered by the derived terms OR e[x,y]; validated by building the real NetworkxGraph(all_modules, imports, k) on sampled paths and on every model",
         "construction instances read every candidate import (exhaustive walk, degenerate)",
-        "module_path below root_path: only the level arithmetic (kernel extra_levels) is covered here; the end-to-end scan is part of C04",
+        "(d) end to end: get_evaluable_architecture(level_limit=k) on a symbolic file system (C04's candidate universe and line sets, module_path at and below root_path) equals the quotient of the unlimited scan of the same tree; imports that coincide with a hierarchy pair after truncation are don't-care",
     ]
     rep.stubs = ["SymDiGraph (full and quotient)"]
     items.sort(key=lambda i: 0 if i["part"] == "kernel" else 1)
